@@ -75,7 +75,7 @@ def main(tier):
     d = 1 if tier == "quick" else 2
     sh = [s for s in shapes.shapes(d, tier) if not shapes.has_vector_of_bool(s)]
     if tier == "quick":
-        must = set(shapes.fixed_item_arrays())
+        must = set(shapes.fixed_item_arrays()) | set(shapes.optional_item_arrays())
         sh = [x for i, x in enumerate(sh) if i % 2 == 0 or x in must]
     packed = shapes.pack(sh, "Pk")
     packed.append((shapes.pattern_package(4 if tier == "quick" else 5)[0], []))
